@@ -1,6 +1,7 @@
 package main
 
 import (
+	"strings"
 	"fmt"
 	"math/rand"
 )
@@ -719,6 +720,34 @@ func genC03(tier string, rng *rand.Rand, shard, nshards int, emit emitter) {
 			}
 		}
 	}
+	// response values with arbitrary, also inconsistent, fields (byte count vs payload length), encoded by the library
+	for _, fc := range []int{1, 2, 3, 4, 23} {
+		for k := 0; k < 260; k++ {
+			i++
+			if !mine(i, shard, nshards) {
+				continue
+			}
+			bl := k % 256
+			dl := bl
+			switch rng.Intn(4) {
+			case 0:
+				dl = rng.Intn(256)
+			case 1:
+				dl = bl + 1 + rng.Intn(3)
+			case 2:
+				if bl > 0 {
+					dl = bl - 1 - rng.Intn(bl)
+				}
+			}
+			if dl > 255 {
+				dl = 255
+			}
+			emit(fmt.Sprintf("encresp %d r 0 %d %d %s", fc, u8(rng), bl, hxOrDash(rbytes(rng, dl))))
+			if k%16 == 0 {
+				emit(fmt.Sprintf("encresp %d t %d %d %d %s", fc, rng.Intn(65536), u8(rng), bl, hxOrDash(rbytes(rng, dl))))
+			}
+		}
+	}
 	// trailers
 	frames := [][]byte{}
 	ents := []string{}
@@ -816,6 +845,13 @@ func genC11(tier string, rng *rand.Rand, shard, nshards int, emit emitter) {
 				addrs[st+k] = true
 				addrs[st+8*n-1-k] = true
 			}
+			// a window that would reach past 65535: the addresses at the bottom of the address space are BEFORE the start
+			if st+8*n > 65535 {
+				for k := 0; k < 8*n && k < 48; k++ {
+					addrs[(st+k)%65536] = true
+				}
+				addrs[0], addrs[1], addrs[6], addrs[7] = true, true, true, true
+			}
 			for a := range addrs {
 				if a < 0 || a > 65535 {
 					continue
@@ -829,11 +865,60 @@ func genC11(tier string, rng *rand.Rand, shard, nshards int, emit emitter) {
 			emit("c2b " + rbits(rng, n))
 		}
 	}
+	// coil and discrete input fields extracted through the request builder (FC1/FC2 x TCP/RTU, strict and lenient,
+	// full and truncated replies, duplicates at one address)
+	nx := 1500
+	if tier == "thorough" {
+		nx = 40000
+	}
+	for j := 0; j < nx; j++ {
+		if !mine(j, shard, nshards) {
+			continue
+		}
+		base := rng.Intn(65000)
+		if rng.Intn(6) == 0 {
+			base = 65535 - rng.Intn(40)
+		}
+		nf := 1 + rng.Intn(8)
+		var fs []string
+		for f := 0; f < nf; f++ {
+			a := base + rng.Intn(40)
+			if rng.Intn(5) == 0 {
+				a = base + rng.Intn(4) // duplicates
+			}
+			if a > 65535 {
+				a = 65535
+			}
+			srv := []string{"a:502", "a:502", "b:502"}[rng.Intn(3)]
+			fs = append(fs, fmt.Sprintf("f%d,%s,%d,%d,14,0,0,0,0", f, srv, 1+rng.Intn(2), a))
+		}
+		trunc := -1
+		if rng.Intn(3) == 0 {
+			trunc = 1 + rng.Intn(24)
+		}
+		emit(fmt.Sprintf("extract %d %d %d %d %s", rng.Intn(4), rng.Intn(2), trunc, rng.Intn(100000), strings.Join(fs, ";")))
+	}
+	// the same packing as it goes out on the wire in a write-multiple-coils request (both framings)
+	for n := 1; n <= 1968; n++ {
+		if !mine(n, shard, nshards) {
+			continue
+		}
+		if tier != "thorough" && n > 80 && n%8 != 0 && n%61 != 0 {
+			continue
+		}
+		fr := []string{"t", "r"}[n%2]
+		emit(newreqOp("newreq", 15, fr, rng.Intn(65536), u8(rng), rng.Intn(60000), 0, false, 0, "-", rbits(rng, n)))
+		if n%8 == 0 {
+			emit(newreqOp("newreq", 15, []string{"r", "t"}[n%2], rng.Intn(65536), u8(rng), rng.Intn(60000), 0, false, 0, "-", strings.Repeat("1", n)))
+		}
+	}
 }
 
 // ---------- C18 ----------
 
 func genC18(tier string, rng *rand.Rand, shard, nshards int, emit emitter) {
+	// the consumer of the classifier: a frame is dispatched only once the announced number of bytes is there
+	genC15("sample", rng, shard, nshards, emit)
 	// prefixes of encodable frames
 	sweepNewArgs("cls", tier, rng, shard, nshards, []string{"t"}, func(op string) {
 		// op = "cls <args>"; append prefix lengths
@@ -911,4 +996,11 @@ func genC18(tier string, rng *rand.Rand, shard, nshards int, emit emitter) {
 			}
 		}
 	}
+}
+
+func hxOrDash(b []byte) string {
+	if len(b) == 0 {
+		return "-"
+	}
+	return hx(b)
 }
